@@ -302,6 +302,11 @@ def gen_items(rng, kt, names, attrs, avail_types, n, handlers, hcount, value_dts
                     seen.add(k.lower())
                     for _j in range(rng.choice([1, 1, 2]) if it["kind"] == "multikey" else 1):
                         d.append([k, default_value(rng, it["datatype"])])
+                    if it["kind"] == "multikey" and kt != "identifier" and k.swapcase() != k and rng.random() < 0.4:
+                        # a second spelling of the same key right after the first: one normalised key,
+                        # values in declaration order
+                        for _j in range(rng.choice([1, 1, 2])):
+                            d.append([k.swapcase(), default_value(rng, it["datatype"])])
                 it["defaults"] = d
             items.append(it)
             continue
@@ -361,6 +366,14 @@ def _normkey(kt, n):
 
 
 def _fresh_attr(rng, attrs, stem):
+    # attribute names are Python identifiers: also a leading / trailing underscore and capitals
+    r = rng.random()
+    if r < 0.12:
+        stem = "_" + stem
+    elif r < 0.18:
+        stem = stem.capitalize()
+    elif r < 0.22:
+        stem = stem + "_"
     i = 1
     while True:
         a = "%s%d" % (stem, i)
@@ -766,4 +779,9 @@ def cut_includes(rng, text, main_url, ncuts=None, places=("", "sub/", "../")):
         resources[url] = "".join(l + "\n" for l in newlines)
         resources[target] = "".join(l + "\n" for l in frag)
         made.append((url, target, i, j))
+    if made:
+        # a resource need not end with a line end: its last line counts all the same
+        for u in sorted(resources):
+            if rng.random() < 0.25 and resources[u].endswith("\n") and not resources[u].endswith("\n\n"):
+                resources[u] = resources[u][:-1]
     return resources, made
